@@ -177,7 +177,9 @@ _SEED_CACHE = {}
 
 
 def _key(case):
-    return hashlib.sha1(json.dumps(case, sort_keys=True, default=str).encode()).hexdigest()
+    # keys the driver adds to a case after gen_cases (e.g. "_pre" of the history perturbation) are not part of the script
+    c = {k: v for k, v in case.items() if not k.startswith("_")}
+    return hashlib.sha1(json.dumps(c, sort_keys=True, default=str).encode()).hexdigest()
 
 
 def _run_worker(seed, cases):
